@@ -916,7 +916,7 @@ def _inline_round(d, unit, self_name, counter, max_blocks, only, skip):
                 for cb in cd["blocks"]:
                     for s_ in cb["stmts"]:
                         for n in _walk_all(s_):
-                            if n["k"] == "ref" and n.get("decl") == "param" and n["name"] in direct:
+                            if n["k"] == "ref" and not n.get("_caller") and n.get("decl") == "param" and n["name"] in direct:
                                 n["name"], n["decl"] = direct[n["name"]]
                                 n["_caller"] = 1
                 names -= set(direct)
@@ -925,7 +925,7 @@ def _inline_round(d, unit, self_name, counter, max_blocks, only, skip):
                 for cb in cd["blocks"]:
                     for s_ in cb["stmts"]:
                         for n in _walk_all(s_):
-                            if n["k"] == "ref" and n.get("decl") == "param" and n["name"] in const_of:
+                            if n["k"] == "ref" and not n.get("_caller") and n.get("decl") == "param" and n["name"] in const_of:
                                 src = _cp.deepcopy(const_of[n["name"]])
                                 for m_ in _walk_all(src):
                                     m_["_caller"] = 1
@@ -944,7 +944,7 @@ def _inline_round(d, unit, self_name, counter, max_blocks, only, skip):
                                     inner = v["e"]
                                     while inner is not None and inner["k"] == "cast":
                                         inner = inner["e"]
-                                    if inner is not None and inner["k"] == "ref" and inner.get("decl") == "param" and inner["name"] in addr_of:
+                                    if inner is not None and inner["k"] == "ref" and not inner.get("_caller") and inner.get("decl") == "param" and inner["name"] in addr_of:
                                         import copy as _cp2
                                         r2 = _cp2.deepcopy(addr_of[inner["name"]])
                                         for m_ in _walk_all(r2):
@@ -967,7 +967,7 @@ def _inline_round(d, unit, self_name, counter, max_blocks, only, skip):
                     # remaining bare uses of the parameter are the address itself
                     for s_ in cb["stmts"]:
                         for n in _walk_all(s_):
-                            if n["k"] == "ref" and n.get("decl") == "param" and n["name"] in addr_of:
+                            if n["k"] == "ref" and not n.get("_caller") and n.get("decl") == "param" and n["name"] in addr_of:
                                 import copy as _cp3
                                 tv = _cp3.deepcopy(addr_of[n["name"]])
                                 for m_ in _walk_all(tv):
@@ -1128,6 +1128,8 @@ class Unit:
 class Program:
     def __init__(self, unit_facts, unit_paths):
         self.units = {n: Unit(n, f, unit_paths[n][0]) for n, f in unit_facts.items()}
+        for n, u in self.units.items():
+            u.flags = list(unit_paths[n][1]) if len(unit_paths[n]) > 1 else []     # the build's compile flags (-D...) of this unit
 
     def unit(self, name):
         u = self.units.get(name)
